@@ -9,6 +9,11 @@ CHECKS = {
    text="Model checking of an explicit TLA+ transcription of ECMA-262 String.prototype (spec/JsString.tla): TLC checks the reference's own laws on every enumerated case, enumerates the full product method x receiver grid x argument grid (quick 18k, thorough 52k cases, each also with integer-valued numbers held as host ints), the driver replays every case into the engine and TLC judges value, type, error class and receiver immutability. Exhaustive within the grids; not a proof beyond them.",
    design_ref="DESIGN.md 5/C16",
    note="Trusted: TLC, the wire codec and value classifier (harness/wire.py), JsString.tla as a transcription of ECMA-262; case mapping judged on ASCII only (documented restriction); regex-taking overloads are judged under C20."),
+ "C14": dict(
+   technique="TLA+ model of the instruction encoding (Encoding.tla, exhaustive over all emission sequences with a small byte base) + TLC-judged sweep of size templates across the 8-bit/16-bit boundaries on the real compiler and VM",
+   text="Model checking: Encoding.tla models emitter, back-patching and decoder; TLC explores every emission sequence up to 5-6 instructions with byte base 4 (all operand/target overflow boundaries, 1e5-1.4e6 states) and checks Decode(Encode(p)) = p or refused, and that the pre-fix masking emitter violates it (non-vacuity). Conformance: TLC enumerates (template, n) over 19 shape templates with n across 255/256 and the 64 KB code boundary (quick 225, thorough ~430 programs up to n = 1e5), the engine runs each, TLC judges the result against the closed form in C14.tla or accepts a refusal only if it is a JSError raised before anything executed; TLC also judges, on the exported real bytecode of every compiled function, that all jump targets are instruction starts and that the decoder tables of both interpreter loops and the emitter agree (read from the engine's source).",
+   design_ref="DESIGN.md 5/C14",
+   note="Trusted: TLC; the template renderer in checks/c14_driver.py against the closed forms (cross-checked at n = 1, 2, 50); extraction of decoder tables from vm.py by ast (failure = exit 2). Operator chains deeper than the documented parser recursion limit are out of scope."),
 }
 NOT_APPLICABLE = {}
 ALL = ["C%02d" % i for i in range(1, 21)]
